@@ -54,7 +54,7 @@ Fixpoint euclid (fuel : nat) (w a b : Z) : option (outcome Z) :=
 (* |b| at least halves every two iterations and |b| <= 2^(w-1): 2w + 1 iterations suffice *)
 Definition euclid_fuel (w : Z) : nat := S (2 * Z.to_nat w).
 
-Definition impl_gcd (m : mode) (w a b : Z) : option (outcome Z) :=
+Definition old_impl_gcd (m : mode) (w a b : Z) : option (outcome Z) :=
   match rust_abs m w a with
   | Ok a' =>
     match rust_abs m w b with
@@ -67,7 +67,7 @@ Definition impl_gcd (m : mode) (w a b : Z) : option (outcome Z) :=
   | Panic => Some Panic
   end.
 
-Definition impl_lcm (m : mode) (w a b : Z) : option (outcome Z) :=
+Definition old_impl_lcm (m : mode) (w a b : Z) : option (outcome Z) :=
   if (a =? 0) || (b =? 0) then Some (Ok 0) else
   match rust_abs m w a with
   | Ok abs_a =>
@@ -101,7 +101,7 @@ Fixpoint fact_loop (fuel : nat) (i n r : Z) : option (option Z) :=
 
 Definition fact_fuel : nat := 40.
 
-Definition impl_factorial (n : Z) : option (outcome (option Z)) :=
+Definition old_impl_factorial (n : Z) : option (outcome (option Z)) :=
   if n <? 0 then Some (Ok None)
   else if (n =? 0) || (n =? 1) then Some (Ok (Some 1))
   else match fact_loop fact_fuel 2 n 1 with None => None | Some r => Some (Ok r) end.
@@ -139,7 +139,7 @@ Definition as_u32 (b : Z) : Z := b mod 2 ^ 32.
 Definition impl_shl (sg : sgn) (w a b : Z) : outcome Z :=
   let n := as_u32 b in
   if n <? w then Ok (of_bits sg w (Z.shiftl (to_bits w a) n)) else Ok 0.
-Definition impl_shr (sg : sgn) (w a b : Z) : outcome Z :=
+Definition old_impl_shr (sg : sgn) (w a b : Z) : outcome Z :=
   let n := as_u32 b in
   if n <? w then Ok (a / 2 ^ n) else Ok 0.
 
@@ -165,7 +165,7 @@ Definition spec_shr_exec (sg : sgn) (w a b : Z) : outcome Z :=
      scale_amount = checked_pow(TEN, |scale_diff|)    (error if it leaves the primitive)
      rounding_addition = scale_amount / 2 when scale_diff > 0
    result of bind: (new_scale, scale_diff, scale_amount) *)
-Definition round_bind (m : mode) (kd : dkind) (s n : Z) : outcome (Z * Z * Z) :=
+Definition old_round_bind (m : mode) (kd : dkind) (s n : Z) : outcome (Z * Z * Z) :=
   if in_range Signed 8 n then
     let ns := Z.min n s in
     bind_out (arith_result Native m Signed 8 (s - ns)) (fun diff =>
@@ -186,8 +186,8 @@ Definition round_val (kd : dkind) (p diff amount v : Z) : outcome Z :=
   bind_out scaled (fun x => if vprec x p then Ok x else Err).
 
 (* (scale of the result type, unscaled result) *)
-Definition impl_round (m : mode) (kd : dkind) (p s n v : Z) : outcome (Z * Z) :=
-  bind_out (round_bind m kd s n) (fun b =>
+Definition old_impl_round (m : mode) (kd : dkind) (p s n v : Z) : outcome (Z * Z) :=
+  bind_out (old_round_bind m kd s n) (fun b =>
     let '(ns, diff, amount) := b in
     bind_out (round_val kd p diff amount v) (fun x => Ok (ns, x))).
 
@@ -201,11 +201,12 @@ Definition spec_round (p s n v : Z) : outcome (Z * Z) :=
   else let r := rha v (10 ^ (s - ns)) in
        if fits p r then Ok (ns, r) else Err.
 
-(* ---------------------------------------------------------------- repaired variants
-   What the five functions compute once they use the checked operations of arith/checked.rs
-   (CheckedArith / CheckedNeg) the way + - * / % do, route an unrepresentable result to an error and
-   sign-fill an over-long right shift.  vlib/tables_numfn.py reads from the source which variant each file
-   has today (gen/TablesNumfn.v); the driver runs that one against the engine.
+(* ---------------------------------------------------------------- the CURRENT source of gcd, lcm, factorial, shr,
+   DecimalToDecimal::bind (after the fixes 9b10c8448, e09e186b9, eb21ac26a, 36f5e65a8): the checked operations of
+   arith/checked.rs (CheckedArith / CheckedNeg) as + - * / % use them, an unrepresentable result is an error, an
+   over-long right shift keeps the sign.  The definitions prefixed old_ further up transcribe what these five files did
+   before; vlib/tables_numfn.py reads from the source which variant each file has (gen/TablesNumfn.v: all repaired today)
+   and the driver runs that one against the engine, so that a regression is recognised for what it is.
      gcd:  Euclid on the signed operands, `b = a.rem_checked(b).unwrap_or(0)`, then |result| via neg_checked
      lcm:  a.div_checked(gcd).and_then(|q| q.mul_checked(b)), then |.| via neg_checked
      factorial: negative input and a product that leaves Int128 fail the statement
@@ -225,10 +226,10 @@ Fixpoint euclid_c (fuel : nat) (a b : Z) : option Z :=
   | S f => euclid_c f b (match rem_checked a b with Some r => r | None => 0 end)
   end.
 
-Definition impl_gcd_c (w a b : Z) : option (outcome Z) :=
+Definition impl_gcd (w a b : Z) : option (outcome Z) :=
   option_map (fun g => of_opt (abs_checked w g)) (euclid_c (euclid_fuel w) a b).
 
-Definition impl_lcm_c (w a b : Z) : option (outcome Z) :=
+Definition impl_lcm (w a b : Z) : option (outcome Z) :=
   if (a =? 0) || (b =? 0) then Some (Ok 0) else
   option_map (fun g => of_opt (match div_checked w a g with
                                | Some q => match mul_checked w q b with Some v => abs_checked w v | None => None end
@@ -236,7 +237,7 @@ Definition impl_lcm_c (w a b : Z) : option (outcome Z) :=
                                end))
              (euclid_c (euclid_fuel w) a b).
 
-Definition impl_factorial_c (n : Z) : option (outcome (option Z)) :=
+Definition impl_factorial (n : Z) : option (outcome (option Z)) :=
   if n <? 0 then Some Err
   else if (n =? 0) || (n =? 1) then Some (Ok (Some 1))
   else match fact_loop fact_fuel 2 n 1 with
@@ -245,32 +246,32 @@ Definition impl_factorial_c (n : Z) : option (outcome (option Z)) :=
        | Some None => Some Err
        end.
 
-Definition impl_shr_c (sg : sgn) (w a b : Z) : outcome Z :=
+Definition impl_shr (sg : sgn) (w a b : Z) : outcome Z :=
   let n := as_u32 b in
   if n <? w then Ok (a / 2 ^ n) else if 0 <? b then Ok ((a / 2 ^ (w - 1)) / 2) else Ok 0.
 
-Definition round_bind_c (kd : dkind) (s n : Z) : outcome (Z * Z * Z) :=
+Definition round_bind (kd : dkind) (s n : Z) : outcome (Z * Z * Z) :=
   if in_range Signed 8 n then
     let ns := Z.min n s in
     bind_out (if in_range Signed 8 (s - ns) then Ok (s - ns) else Err) (fun diff =>
     bind_out (checked kd (10 ^ Z.abs diff)) (fun amount => Ok (ns, diff, amount)))
   else Err.
-Definition impl_round_c (kd : dkind) (p s n v : Z) : outcome (Z * Z) :=
-  bind_out (round_bind_c kd s n) (fun b =>
+Definition impl_round (kd : dkind) (p s n v : Z) : outcome (Z * Z) :=
+  bind_out (round_bind kd s n) (fun b =>
     let '(ns, diff, amount) := b in
     bind_out (round_val kd p diff amount v) (fun x => Ok (ns, x))).
 
-(* the variant the source has: Native = as transcribed at the top of this file, Checked = repaired *)
+(* the variant the source has: Native = the old_ definitions, Checked = the current ones *)
 Definition impl_gcd_src (st : style) (m : mode) (w a b : Z) : option (outcome Z) :=
-  match st with Native => impl_gcd m w a b | Checked => impl_gcd_c w a b end.
+  match st with Native => old_impl_gcd m w a b | Checked => impl_gcd w a b end.
 Definition impl_lcm_src (st : style) (m : mode) (w a b : Z) : option (outcome Z) :=
-  match st with Native => impl_lcm m w a b | Checked => impl_lcm_c w a b end.
+  match st with Native => old_impl_lcm m w a b | Checked => impl_lcm w a b end.
 Definition impl_factorial_src (st : style) (n : Z) : option (outcome (option Z)) :=
-  match st with Native => impl_factorial n | Checked => impl_factorial_c n end.
+  match st with Native => old_impl_factorial n | Checked => impl_factorial n end.
 Definition impl_shr_src (st : style) (sg : sgn) (w a b : Z) : outcome Z :=
-  match st with Native => impl_shr sg w a b | Checked => impl_shr_c sg w a b end.
+  match st with Native => old_impl_shr sg w a b | Checked => impl_shr sg w a b end.
 Definition impl_round_src (st : style) (m : mode) (kd : dkind) (p s n v : Z) : outcome (Z * Z) :=
-  match st with Native => impl_round m kd p s n v | Checked => impl_round_c kd p s n v end.
+  match st with Native => old_impl_round m kd p s n v | Checked => impl_round kd p s n v end.
 
 (* ---------------------------------------------------------------- abs sign ceil floor trunc round
    on integers and decimals: computed in binary64 *)
